@@ -14,12 +14,15 @@ package agent
 //@ ensures a.cfg.SOCKS5.Auth.Enabled ==> forall i in 0..len(result): !istype(result[i], *socks5.NoAuthAuthenticator)
 
 //@ func (*Agent).initComponents
-//@ prop C21
+//@ prop C21 C15
 //@ modifies *
+//@ at[C15] call flood.NewFlooder assert $0.MaxHops == a.cfg.Routing.MaxHops
+//@ note C15: the flooder is built with the configured routing.max_hops (census: NewFlooder is called nowhere else in the agent)
 //@ at call socks5.NewServer assert a.cfg.SOCKS5.Auth.Enabled ==> len($0.Authenticators) >= 1
 //@ at call socks5.NewServer assert a.cfg.SOCKS5.Auth.Enabled ==> forall i in 0..len($0.Authenticators): !istype($0.Authenticators[i], *socks5.NoAuthAuthenticator)
 
 //@ census[C21] socks5.NewServer in (*Agent).initComponents
+//@ census[C15] flood.NewFlooder in (*Agent).initComponents
 //@ census[C21] socks5.NewHandler in -
 
 // ---- C28: frame handlers change the sleep state only for a command the flooder accepted ----
